@@ -1,6 +1,8 @@
 """Call dispatch: repo functions (by contract or inlined), D-Bus signals,
 packet constructors, exception constructors, externs."""
 import ast
+import os
+import sys
 import z3
 
 from .sym import (V, Py, is_py, NONE, TPy, Unsupported, mk_int, mk_bool, fresh, fresh_name, truthy, coerce,
@@ -614,11 +616,15 @@ class CallMixin:
                 if isinstance(v.t, TOpt) and not isinstance(ft, TOpt):
                     # scapy: a field given as None takes its default
                     if self.branch(v.t.is_none(v.z)):
-                        v = self.pkt_default_value(owner, fn, default, ft)
+                        # scapy stores None as it is given (the field then encodes as CBOR null); the contract declares
+                        # this field non-optional, so the case cannot be represented: undecided, not guessed
+                        raise Unsupported('None given for packet field %s.%s, which the contracts declare non-optional'
+                                          % (ci.qualname, fn))
                     else:
                         v = V(v.t.inner, v.t.val(v.z))
                 elif v.t is TNone and not isinstance(ft, TOpt):
-                    v = self.pkt_default_value(owner, fn, default, ft)
+                    raise Unsupported('None given for packet field %s.%s, which the contracts declare non-optional'
+                                      % (ci.qualname, fn))
                 elif isinstance(ft, TOpt) and isinstance(ft.inner, TAny) and v.t in (TBool, TInt, TStr, TBytes):
                     # scapy: any2i() converts a value of another Python type; what matters to the contracts of an
                     # opaque-valued field is that the stored internal value is present (any2i maps only None to None)
